@@ -80,6 +80,10 @@ type RWMutex struct {
 	g       sync.Mutex
 	writer  bool
 	readers int
+	// wwait counts goroutines blocked in Lock. As with sync.RWMutex a blocked Lock call excludes
+	// new readers (so a recursive RLock with a writer waiting in between deadlocks, as it does
+	// with the real type).
+	wwait   int
 	waiters []chan struct{}
 }
 
@@ -109,12 +113,20 @@ func (m *RWMutex) Lock() {
 		return
 	}
 	Sync("rwmutex.Lock")
+	waiting := false
 	for {
 		m.g.Lock()
 		if !m.writer && m.readers == 0 {
 			m.writer = true
+			if waiting {
+				m.wwait--
+			}
 			m.g.Unlock()
 			return
+		}
+		if !waiting {
+			waiting = true
+			m.wwait++
 		}
 		m.wait("rwmutex.Lock.retry")
 	}
@@ -148,7 +160,7 @@ func (m *RWMutex) RLock() {
 	Sync("rwmutex.RLock")
 	for {
 		m.g.Lock()
-		if !m.writer {
+		if !m.writer && m.wwait == 0 {
 			m.readers++
 			m.g.Unlock()
 			return
@@ -193,7 +205,7 @@ func (m *RWMutex) TryRLock() bool {
 	}
 	m.g.Lock()
 	defer m.g.Unlock()
-	if m.writer {
+	if m.writer || m.wwait > 0 {
 		return false
 	}
 	m.readers++
